@@ -46,13 +46,15 @@ type Server struct {
 	writeN     map[int64]int
 	readN      map[int64]int
 	// faults: return non-nil to fail the n-th (1-based) write request / read / list / scan on a shard before applying it
-	WriteFault  func(shard int64, n int) error
-	ReadFault   func(shard int64, n int) error
-	ScanFault   func(shard int64, kind string) error
-	Delay       func(shard int64) time.Duration
-	ChunkSize   func() int
-	Batches     []int // sizes of the write requests received
-	ReadBatches []int
+	WriteFault func(shard int64, n int) error
+	ReadFault  func(shard int64, n int) error
+	// ReadFaultMid: like ReadFault, but consulted after the first chunk of the answer has been sent
+	ReadFaultMid func(shard int64, n int) error
+	ScanFault    func(shard int64, kind string) error
+	Delay        func(shard int64) time.Duration
+	ChunkSize    func() int
+	Batches      []int // sizes of the write requests received
+	ReadBatches  []int
 }
 
 func Vid(parts ...string) int64 {
@@ -294,13 +296,21 @@ func (s *Server) Read(req *proto.ReadRequest, stream proto.OxiaClient_ReadServer
 		chunk = s.ChunkSize()
 	}
 	res := &proto.ReadResponse{}
+	sentChunks := 0
 	for _, g := range req.Gets {
 		res.Gets = append(res.Gets, s.getOne(shard, g))
 		if len(res.Gets) >= chunk {
 			if err := stream.Send(res); err != nil {
 				return err
 			}
+			sentChunks++
 			res = &proto.ReadResponse{}
+			// a failure in the middle of the answer: some chunks are out, the rest never comes
+			if s.ReadFaultMid != nil && sentChunks == 1 {
+				if err := s.ReadFaultMid(shard, n); err != nil {
+					return err
+				}
+			}
 		}
 	}
 	if len(res.Gets) > 0 {
